@@ -680,9 +680,12 @@ class Bench:
         else:
             rx = np.concatenate([np.full(d, op["off"]), rx])[: rx.size]
         if op.get("short"):
-            # a record only a little longer than delay + one pattern (less than two patterns in total)
-            keep = d + L + 1 + int(op.get("extra", 0.5) * max(0, L - d - 2))
-            rx = rx[:min(rx.size, max(keep, L + 1))]
+            # a record slightly shorter than two patterns (2l-1-k samples, k <= 2*sps): nearly all l candidate lags are
+            # still available.  Much shorter records are not generated: "the pattern's waveform repeated" is then
+            # hardly met, and SYNC's own 3-sigma plausibility test on a handful of lags rejects them (seen in a soak).
+            kcut = 1 + int(op.get("extra", 0.5) * 2 * sps)
+            if d <= L - 1 - kcut:
+                rx = rx[:2 * L - 1 - kcut]
         if op["sigma"]:
             rx = rx + np.random.RandomState(op["nseed"]).normal(0, op["sigma"] * op["amp"], rx.size)
         tx = self.BS(bits) if op["tx"] == "bs" else bits.copy()
